@@ -129,12 +129,14 @@ def proof_stage(pid, tier):
         if r.returncode != 0:
             res["detail"] = "coqchk failed: " + res["coqchk"]
             return res
-        stamp = os.path.join(ROOT, "work", "coqchk_full.stamp")
-        full = "not run on the current compiled files"
-        if os.path.exists(stamp):
-            vos = glob.glob(os.path.join(COQ, "theories", "**", "*.vo"), recursive=True)
-            if vos and os.path.getmtime(stamp) >= max(os.path.getmtime(v) for v in vos):
-                full = "passed (" + open(stamp).read().strip()[:200] + ")"
+        mods = [l.strip()[len("theories/"):-2].replace("/", ".") for l in open(os.path.join(COQ, "_CoqProject")) if l.strip().startswith("theories/") and l.strip().endswith(".v")]
+        okm = 0
+        for m in mods:
+            vo = os.path.join(COQ, "theories", m.replace(".", "/") + ".vo")
+            okf = os.path.join(ROOT, "work", "coqchk", m + ".ok")
+            if os.path.exists(vo) and os.path.exists(okf) and open(okf).read().strip() == str(int(os.path.getmtime(vo))):
+                okm += 1
+        full = "%d of %d modules re-checked as compiled now" % (okm, len(mods))
         res["coqchk_full"] = full
         res["checker_cmd"] += " ; coqchk -silent -o -Q theories MQ -norec MQ.Props.%s (whole-development coqchk by tools/coqchk_all.sh: %s)" % (pid, full)
     res["discharged"] = len(thms)
